@@ -334,6 +334,45 @@ def rule_r7_adapters(text, types, applied):
         applied.append(f'R7({kind}#{k})')
 
 
+def rule_r8_map_collect(text, types, applied):
+    """`ITER.map(|P| BODY).collect()` -> a loop that pushes BODY for every item (definition of map + collect into a Vec)"""
+    while True:
+        st = _lex(text)
+        idx = []
+        for i, t in enumerate(st):
+            if t.kind == 'ident' and t.text == 'map' and i > 0 and st[i - 1].text == '.' and st[i + 1].text == '(' and st[i + 2].text == '|':
+                close = match_forward(st, i + 1)
+                if close + 4 < len(st) and st[close + 1].text == '.' and st[close + 2].text == 'collect' and st[close + 3].text == '(' and st[close + 4].text == ')':
+                    idx.append(i)
+        if not idx:
+            return text
+        k = len(idx)
+        i = idx[-1]
+        if k not in types:
+            raise Undecided(f'R8: no Vec type given for map/collect #{k}')
+        j = _receiver_start(st, i, 'R8')
+        recv = text[st[j].start:st[i - 1].start].rstrip()
+        close = match_forward(st, i + 1)
+        c = i + 2
+        c2 = c + 1
+        d = 0
+        while not (st[c2].text == '|' and d == 0):
+            if st[c2].text in OPEN:
+                d += 1
+            elif st[c2].text in CLOSE:
+                d -= 1
+            c2 += 1
+        px = text[st[c].end:st[c2].start].strip()
+        last = close - 1
+        if st[last].text == ',':
+            last -= 1
+        body = text[st[c2 + 1].start:st[last].end]
+        v, x = f'__vM{k}', f'__xM{k}'
+        new = (f'({{ let mut {v}: {types[k]} = Vec::new();\nfor {x} in {recv} {{ let {px} = {x}; {v}.push({body}); }}\n{v} }})')
+        text = text[:st[j].start] + new + text[st[close + 4].end:]
+        applied.append(f'R8(map-collect#{k})')
+
+
 def rule_r1_break_value(text, applied, breaktypes=None):
     """`break E` in a `loop` -> assignment + break (or `return E` when the loop is the function's tail)."""
     n = 0
@@ -686,7 +725,7 @@ def new_fn_spec(attrs):
         'id': attrs['id'], 'file': attrs['file'], 'name': attrs['name'], 'container': attrs.get('in'),
         'props': [p for p in attrs.get('props', '').split(',') if p],
         'ret': None, 'requires': [], 'ensures': [],  # ensures: list of {'label','props','lines'}
-        'loops': {}, 'folds': {}, 'closures': {}, 'ats': [], 'hoist': [], 'lettypes': {}, 'breaktypes': {}, 'desugar_for': [], 'adapters': {}, 'container_extra': [], 'attrs': [],
+        'loops': {}, 'folds': {}, 'closures': {}, 'ats': [], 'hoist': [], 'lettypes': {}, 'breaktypes': {}, 'desugar_for': [], 'adapters': {}, 'mapcollects': {}, 'container_extra': [], 'attrs': [],
         'recommends': [], 'decreases': [], 'stub_only': attrs.get('stub') == 'only', 'trusted_reason': attrs.get('trusted'),
     }
 
@@ -784,6 +823,9 @@ def parse_spec_file(path):
             sect = a['lines']
         elif kw == 'hoist':
             cur['hoist'] += pos
+            sect = None
+        elif kw == 'mapcollect':
+            cur['mapcollects'][int(pos[0])] = attrs['type']
             sect = None
         elif kw == 'adapter':
             cur['adapters'][int(pos[0])] = attrs.get('type')
@@ -911,6 +953,7 @@ class Generator:
                 text, hoisted = rule_r4_hoist(text, spec['hoist'], applied)
             text = rule_r2_fold(text, spec['folds'], applied)
             text = rule_r7_adapters(text, spec['adapters'], applied)
+            text = rule_r8_map_collect(text, spec['mapcollects'], applied)
             text = rule_r1_break_value(text, applied, spec['breaktypes'])
             text = rule_r6_desugar_for(text, spec['desugar_for'], applied)
             text = rule_r3_closures(text, spec['closures'], applied, None)
@@ -920,7 +963,7 @@ class Generator:
                 spec_t = dict(spec, ats=spec['ats'] + [{'where': ['body-start'], 'lines': ['assert(false); // vacuity twin']}])
             segs = splice_annotations(text, spec_t)
         for h in hoisted:
-            out.emit(re.sub(r'#\[derive\([^)]*\)\]', '#[derive(PartialEq)]', h) + '\n', {'fn': fnid, 'section': 'hoisted', 'label': 'hoisted', 'props': []})
+            out.emit('pub ' + re.sub(r'#\[derive\([^)]*\)\]\s*', '', h) + '\n', {'fn': fnid, 'section': 'hoisted', 'label': 'hoisted', 'props': []})
         cont = spec['container']
         if cont:
             out.emit(('pub ' if cont.startswith('trait ') else '') + cont + ' {\n', body_tag)
